@@ -119,6 +119,16 @@ lemma ok_of_not_exception (t : List (String × List (List ℚ))) (ok : List (Lis
 theorem pengHigh_exceptions : exceptions pengHighTable pos10 = ["Ra"] := by decide +kernel
 theorem pengLow_exceptions : exceptions pengLowTable pos10 = ["Rb", "Np"] := by decide +kernel
 
+theorem pengIonic_exceptions : exceptions pengIonicTable pos10 =
+    ["Si++++", "Ti++", "Ti+++", "V++", "Cr+++", "Mn++++", "Ni++", "Ge++++", "Y+++", "Mo+++++", "Pd++", "Sn++", "I-", "Ba++", "U++++"] := by
+  decide +kernel
+
+/-- Peng: `projected_scattering_factor` uses the weights `a/κ` with the same widths, hence equals scattering factor / κ -/
+theorem peng_projected_sf_eq (x a0 a1 a2 a3 a4 b0 b1 b2 b3 b4 kappa : ℝ) :
+    ParamPengR.scatteringFactorK2 x (a0 / kappa) (a1 / kappa) (a2 / kappa) (a3 / kappa) (a4 / kappa) b0 b1 b2 b3 b4
+      = ParamPengR.scatteringFactorK2 x a0 a1 a2 a3 a4 b0 b1 b2 b3 b4 / kappa := by
+  unfold ParamPengR.scatteringFactorK2; ring
+
 /-- whole-table statement: for every tabulated element other than the listed exception the Peng scattering factor
 is positive everywhere and strictly decreasing in `k²` -/
 theorem pengHigh_table_sf (e : String × List (List ℚ)) (he : e ∈ pengHighTable) (hn : e.1 ≠ "Ra") :
